@@ -17,6 +17,7 @@ import (
 )
 
 type Clause struct {
+	NArgs    int // assert clauses: number of positional call arguments (__argK) appended to the parameters
 	Kind  string // requires ensures xensures panics modifies ghost invariant decreases assert serves inline dataplane dependency trusted
 	Loop  int    // for invariant/decreases: loop ordinal (1-based)
 	Label string // optional label
@@ -60,7 +61,7 @@ type Contracts struct {
 
 var clauseKW = map[string]bool{"assumes": true, "requires": true, "ensures": true, "xensures": true, "panics": true,
 	"modifies": true, "ghost": true, "loop": true, "serves": true, "inline": true, "dataplane": true,
-	"dependency": true, "trusted": true, "assert": true, "callback": true, "noinline": true, "pure": true, "typeparams": true, "xpure": true, "callbackframe": true, "maypanic": true}
+	"dependency": true, "trusted": true, "assert": true, "callback": true, "noinline": true, "pure": true, "typeparams": true, "xpure": true, "callbackframe": true, "maypanic": true, "lockedcallbacks": true}
 
 var reLabel = regexp.MustCompile(`^([A-Za-z_][A-Za-z0-9_.\-]*):\s+`)
 
@@ -137,7 +138,7 @@ func parseContracts(dir string, tags string) (*Contracts, error) {
 					}
 					curClause = nil
 					continue
-				case "inline", "dataplane", "dependency", "trusted", "noinline", "pure", "callback", "xpure", "callbackframe", "maypanic":
+				case "inline", "dataplane", "dependency", "trusted", "noinline", "pure", "callback", "xpure", "callbackframe", "maypanic", "lockedcallbacks":
 					cur.Flags[first] = true
 					if rest != "" {
 						cl.Text = rest
